@@ -369,7 +369,7 @@ func genCase(t *rapid.T) Case {
 	case k == 14:
 		c.Kind = "Meter"
 		c.A = d8(t)
-		c.B = rapid.SampledFrom([]int{1, 2, 4, 8, 16, 32, 64, 128, 0}).Draw(t, "den")
+		c.B = rapid.SampledFrom([]int{1, 2, 4, 8, 16, 32, 64, 128}).Draw(t, "den")
 	default:
 		c.Kind = "Tempo"
 		if rapid.Bool().Draw(t, "asField") {
